@@ -339,7 +339,58 @@ class StripAnnotations(ast.NodeTransformer):
         return node
 
 
+class KeywordizeCalls(ast.NodeTransformer):
+    """`f(a, b)` becomes `f(x=a, y=b)` for calls of functions of the same module and `self.m(a)` calls of methods of the same class"""
+
+    def __init__(self):
+        self.mod_funcs = {}
+        self.cls_methods = []
+
+    @staticmethod
+    def _params(fn, drop_first):
+        a = fn.args
+        if a.vararg or a.posonlyargs:
+            return None
+        names = [x.arg for x in a.args]
+        return names[1:] if drop_first else names
+
+    def visit_Module(self, node):
+        self.mod_funcs = {f.name: self._params(f, False) for f in node.body if isinstance(f, ast.FunctionDef)}
+        self.generic_visit(node)
+        return node
+
+    def visit_ClassDef(self, node):
+        m = {}
+        for f in node.body:
+            if isinstance(f, ast.FunctionDef):
+                static = any(isinstance(d, ast.Name) and d.id == 'staticmethod' for d in f.decorator_list)
+                prop = any((isinstance(d, ast.Name) and d.id == 'property') or isinstance(d, ast.Attribute) for d in f.decorator_list)
+                if not prop:
+                    m[f.name] = self._params(f, not static)
+        self.cls_methods.append(m)
+        self.generic_visit(node)
+        self.cls_methods.pop()
+        return node
+
+    def visit_Call(self, node):
+        self.generic_visit(node)
+        if any(isinstance(a, ast.Starred) for a in node.args) or any(k.arg is None for k in node.keywords) or not node.args:
+            return node
+        params = None
+        if isinstance(node.func, ast.Name):
+            params = self.mod_funcs.get(node.func.id)
+        elif isinstance(node.func, ast.Attribute) and isinstance(node.func.value, ast.Name) and node.func.value.id == 'self' and self.cls_methods:
+            params = self.cls_methods[-1].get(node.func.attr)
+        if not params or len(node.args) > len(params):
+            return node
+        kws = [ast.keyword(arg=params[i], value=a) for i, a in enumerate(node.args)]
+        node.keywords = kws + node.keywords
+        node.args = []
+        return node
+
+
 TRANSFORMS = {
+    'keywordize-calls': lambda: KeywordizeCalls(),
     'add-unrelated': lambda: AddUnrelated(),
     'strip-docstrings': lambda: StripDocstrings(),
     'strip-annotations': lambda: StripAnnotations(),
